@@ -69,22 +69,23 @@ _guard_hits = [0]
 
 
 def guarded(fn, seconds=2):
-    """Run fn() with a CPU-time guard (the real mpf2expansion loops forever on NaN).
-    Every legitimate call returns within milliseconds; after a few hits the guard is shortened so
-    that a change making many inputs diverge cannot blow the time budget."""
+    """Run fn() under a CPU-time guard (ITIMER_VIRTUAL: user CPU seconds of this process, so a loaded
+    machine cannot trip it).  Every legitimate call needs milliseconds of CPU; exceeding the budget is
+    reported as NonTermination and is ALWAYS a failure of the code under test (before /repo commit
+    81efdaa mpf2expansion looped forever on NaN).  After a few hits the budget is shortened so that a
+    change making many inputs diverge cannot blow the time budget of the check."""
     if _guard_hits[0] >= 3:
         seconds = 0.3
-    # CPU time of this process (ITIMER_PROF), not wall-clock time: a loaded machine must not look like divergence
-    old = signal.signal(signal.SIGPROF, _alarm)
-    signal.setitimer(signal.ITIMER_PROF, seconds)
+    old = signal.signal(signal.SIGVTALRM, _alarm)
+    signal.setitimer(signal.ITIMER_VIRTUAL, seconds)
     try:
         return fn()
     except NonTermination:
         _guard_hits[0] += 1
         raise
     finally:
-        signal.setitimer(signal.ITIMER_PROF, 0)
-        signal.signal(signal.SIGPROF, old)
+        signal.setitimer(signal.ITIMER_VIRTUAL, 0)
+        signal.signal(signal.SIGVTALRM, old)
 
 
 def show_q(q):
@@ -407,8 +408,13 @@ def check_mpf(F, prec, tup, p=None, max_length=None, length=None):
         ex = guarded(lambda: U.mpf2expansion(dt, x, length=length))
         if special:
             if isnan:
-                if not (len(ex) >= 1 and all(numpy.isnan(w) for w in ex)):
+                # NaN maps to itself: the one-word expansion [nan], which expansion2mpf maps back to nan
+                if not (len(ex) == 1 and numpy.isnan(ex[0])):
                     fail("expansion-nan", "mpf2expansion:nan-not-preserved", got=[pat(w) for w in ex])
+                else:
+                    back = U.expansion2mpf(ctx, ex)
+                    if not ctx.isnan(back):
+                        fail("expansion-nan-roundtrip", "expansion2mpf:nan", got=show_mpf(back))
             else:
                 if not (len(ex) == 1 and numpy.isinf(ex[0]) and (ex[0] > 0) == (s == 0)):
                     fail("expansion-inf", "mpf2expansion:inf-not-preserved", got=[pat(w) for w in ex])
@@ -428,7 +434,7 @@ def check_mpf(F, prec, tup, p=None, max_length=None, length=None):
             if len(ex) > length:
                 fail("expansion-length", "mpf2expansion:len>length", got=[pat(w) for w in ex])
     except NonTermination:
-        if isnan and length is None:
+        if isnan and length is None:  # the cause signature of the defect repaired by /repo 81efdaa
             fail("expansion-nan", "mpf2expansion:nan:nontermination(length=None)")
         else:
             fail("expansion-nontermination", "mpf2expansion:nontermination")
